@@ -5,6 +5,13 @@ package main
 //                             makeSortedSlicesFromMap 8 times (8 iteration orders); all
 //                             results must agree; answer = sorted keys, `,`-joined codes,
 //                             or ORDER-DEPENDENT
+//   walk intern <k1> … [| <z1> …]  a map[string]interface{} with these member names (numbers
+//                             as values, "Atype" holds "hash") and, after `|`, a member
+//                             "zKeyOrder" listing those strings, decoded by the real
+//                             zygo.GoToSexp in a fresh interpreter, 8 times (8 iteration
+//                             orders of the Go map); answer = the names the decode interned
+//                             in symbol-NUMBER order (what symnum exposes), `,`-joined
+//                             codes, or ORDER-DEPENDENT when two decodes number them differently
 
 import (
 	"strings"
@@ -37,6 +44,63 @@ func walkExec(toks []string) string {
 				parts = append(parts, bytesToCodes([]byte(k)))
 			}
 			s := strings.Join(parts, ",")
+			if r == 0 {
+				first = s
+			} else if s != first {
+				return "ORDER-DEPENDENT"
+			}
+		}
+		return first
+	case "intern":
+		m := map[string]interface{}{}
+		sawBar := false
+		var znames []interface{}
+		for i, c := range toks[1:] {
+			if c == "|" {
+				sawBar = true
+				continue
+			}
+			b, ok := codesToBytes(c)
+			if !ok {
+				return "bad-op"
+			}
+			if sawBar {
+				znames = append(znames, string(b))
+			} else if string(b) == "Atype" {
+				m["Atype"] = "hash"
+			} else {
+				m[string(b)] = i
+			}
+		}
+		if sawBar {
+			m["zKeyOrder"] = znames
+		}
+		first := ""
+		for r := 0; r < 8; r++ {
+			env := zygo.NewZlisp()
+			base := zygo.VerifSymCounter(env)
+			pre, _ := zygo.VerifSymMaps(env)
+			for k := range m {
+				if _, ok := pre[k]; ok && k != "Atype" && k != "zKeyOrder" {
+					env.Close()
+					return "PREINTERNED " + k
+				}
+			}
+			func() {
+				defer func() { recover() }() // SetHashKeyOrder may reject the list: the numbering stands
+				zygo.GoToSexp(m, env)
+			}()
+			var parts []string
+			for _, e := range zygo.VerifSymTable(env) {
+				if e.Num >= base {
+					parts = append(parts, bytesToCodes([]byte(e.Name)))
+				}
+			}
+			env.Close()
+			s := strings.Join(parts, ",")
+			if s == "" {
+				s = "-"
+			}
 			if r == 0 {
 				first = s
 			} else if s != first {
@@ -82,6 +146,54 @@ func walkGen(g *Gen) {
 		}
 		g.Count("sorted random size " + map[bool]string{true: "1-4", false: "5-12"}[k <= 4])
 		g.Emit("sorted %s", strings.Join(ks, " "))
+	}
+	// decoder interning: member names no fresh interpreter knows
+	names := []string{"zqa", "zqb", "zqB", "zq_", "zq0", "zqaa", "zqab", "Zq", "zzq", "zzzq", "yq", "q~", "zKeyOrdeq", "zKeyOrderq", "Atypf", "Atyp", "zq é"}
+	enc := func(ss []string) string {
+		var cs []string
+		for _, s := range ss {
+			cs = append(cs, bytesToCodes([]byte(s)))
+		}
+		return strings.Join(cs, " ")
+	}
+	pick := func(k int) []string {
+		p := g.Rng.Perm(len(names))
+		var r []string
+		for _, i := range p[:k] {
+			r = append(r, names[i])
+		}
+		return r
+	}
+	for i := 0; i < n/2; i++ {
+		ks := pick(1 + g.Rng.Intn(9))
+		if g.Rng.Intn(3) == 0 {
+			ks = append(ks, "Atype")
+			g.Rng.Shuffle(len(ks), func(i, j int) { ks[i], ks[j] = ks[j], ks[i] })
+		}
+		switch g.Rng.Intn(4) {
+		case 0:
+			g.Count("intern foreign object (no zKeyOrder)")
+			g.Emit("intern %s", enc(ks))
+		case 1:
+			// zKeyOrder = a permutation of the member names (what (json h) writes)
+			var zs []string
+			for _, k := range ks {
+				if k != "Atype" {
+					zs = append(zs, k)
+				}
+			}
+			g.Rng.Shuffle(len(zs), func(i, j int) { zs[i], zs[j] = zs[j], zs[i] })
+			g.Count("intern own object (zKeyOrder = permutation of the members)")
+			g.Emit("intern %s | %s", enc(ks), enc(zs))
+		case 2:
+			// zKeyOrder names things that are not members, and misses some
+			zs := pick(1 + g.Rng.Intn(5))
+			g.Count("intern zKeyOrder with other names")
+			g.Emit("intern %s | %s", enc(ks), enc(zs))
+		case 3:
+			g.Count("intern empty zKeyOrder")
+			g.Emit("intern %s |", enc(ks))
+		}
 	}
 }
 
